@@ -604,6 +604,46 @@ func plainObject(t *core.Tape, v interface{}) []byte {
 	return append(out, '}')
 }
 
+// altEncoders lists the niladic methods of a type (value or pointer receiver) that return
+// ([]byte, error) and are not one of the standard three: encoders an edited tree has added.
+var altEncoderCache = map[int][]string{}
+
+func altEncoders(ty int) []string {
+	if ms, ok := altEncoderCache[ty]; ok {
+		return ms
+	}
+	ms := []string{}
+	pt := reflect.PtrTo(reflect.TypeOf(zeroOf(ty)))
+	errT := reflect.TypeOf((*error)(nil)).Elem()
+	for i := 0; i < pt.NumMethod(); i++ {
+		m := pt.Method(i)
+		switch m.Name {
+		case "MarshalBinary", "MarshalText", "MarshalJSON", "GobEncode":
+			continue
+		}
+		if m.Type.NumIn() == 1 && m.Type.NumOut() == 2 && m.Type.Out(0) == reflect.TypeOf([]byte(nil)) && m.Type.Out(1) == errT {
+			ms = append(ms, m.Name)
+		}
+	}
+	altEncoderCache[ty] = ms
+	return ms
+}
+
+func callEncoder(v interface{}, method string) (b []byte, ok bool) {
+	defer func() {
+		if recover() != nil {
+			b, ok = nil, false
+		}
+	}()
+	p := reflect.New(reflect.TypeOf(v))
+	p.Elem().Set(reflect.ValueOf(v))
+	out := p.MethodByName(method).Call(nil)
+	if !out[1].IsNil() {
+		return nil, false
+	}
+	return out[0].Bytes(), true
+}
+
 // textAccepted: does the type's own text parser (default rule, current limits) accept s?
 func textAccepted(ty int, s string) (ok bool) {
 	defer func() {
@@ -690,6 +730,18 @@ func (h *hist) opCall() {
 		if bm, ok := genValue(t, ty).(encoding.BinaryMarshaler); ok {
 			if b, err := bm.MarshalBinary(); err == nil {
 				rec = Record{ty, RBinary, b, typeNames[ty] + ".MarshalBinary"}
+			}
+		}
+	}
+	if entry == EUnmarshalBinary && h.repeat == nil {
+		// ... and from any other encoder an edited tree has added beside it (a compact form, a new
+		// format version): niladic methods that return ([]byte, error). Nothing is drawn when the
+		// type has none.
+		if ms := altEncoders(ty); len(ms) > 0 && t.Bool(1, 2) {
+			m := ms[t.Choose(len(ms))]
+			if b, ok := callEncoder(genValue(t, ty), m); ok {
+				rec = Record{ty, RBinary, b, typeNames[ty] + "." + m}
+				h.res.Probes.Inc("frame_from_added_encoder")
 			}
 		}
 	}
@@ -904,10 +956,15 @@ func (h *hist) opCall() {
 		d2 := p2.Elem().Interface()
 		h.res.Probes.Inc("scan_text_both_types")
 		disagree := !twinPanicked && ((err == nil) != (err2 == nil) || (err == nil && d2 != h.cur(ty)))
-		if disagree && (err == nil) != (err2 == nil) && !textAccepted(ty, string(preIn)) {
-			// one source type was accepted although the content is no valid text of the type: that
-			// source type is read as something other than text (16 raw bytes of a BINARY(16) column
-			// are a UUID for many drivers). Not a disagreement about parsing a text: not judged.
+		bytesErr := err
+		if scanKind == 4 {
+			bytesErr = err2
+		}
+		if disagree && (err == nil) != (err2 == nil) && bytesErr == nil && !textAccepted(ty, string(preIn)) {
+			// the []byte source was accepted although the content is no valid text of the type: it
+			// is read as something other than text (16 raw bytes of a BINARY(16) column are a UUID
+			// for many drivers). Not a disagreement about parsing a text: not judged. The other
+			// way round (the string accepted, the same bytes refused) has no such reading.
 			disagree = false
 			h.res.Probes.Inc("scan_non_text_interpretation_not_judged")
 		}
